@@ -520,9 +520,7 @@ impl EncodingVersion for EncodingVersion2 {
         deserializer: &mut XTypesDeserializer<'a, E, Self>,
         dynamic_data: &mut DynamicData,
     ) -> XTypesResult<()> {
-        let _dheader = deserializer.deserialize_primitive_type::<u32>()?;
-        deserializer.deserialize_members(dynamic_data)?;
-        Ok(())
+        deserializer.deserialize_delimited(|d| d.deserialize_members(dynamic_data))
     }
 
     /// Member of mutable aggregated type (structure, union), version 2 encoding
@@ -604,8 +602,7 @@ impl EncodingVersion for EncodingVersion2 {
         deserializer: &mut XTypesDeserializer<'a, E, Self>,
         dynamic_data: &mut DynamicData,
     ) -> XTypesResult<()> {
-        let _dheader = deserializer.deserialize_primitive_type::<u32>();
-        deserializer.deserialize_fstruct_type(dynamic_data)
+        deserializer.deserialize_delimited(|d| d.deserialize_fstruct_type(dynamic_data))
     }
 }
 
@@ -692,6 +689,25 @@ fn is_element_type_kind_primitive(member: &DynamicTypeMember) -> XTypesResult<bo
 }
 
 impl<'a, E: EndiannessRead, V: EncodingVersion> XTypesDeserializer<'a, E, V> {
+    /// Reads a DHEADER, runs `f` and then continues after the delimited part, whatever `f`
+    /// consumed, so that what follows a nested appendable or mutable value is read from the
+    /// right place.
+    fn deserialize_delimited(
+        &mut self,
+        f: impl FnOnce(&mut Self) -> XTypesResult<()>,
+    ) -> XTypesResult<()> {
+        let dheader = self.deserialize_primitive_type::<u32>()? as usize;
+        let start = self.reader.pos;
+        let result = f(self);
+        if let Some(end) = start
+            .checked_add(dheader)
+            .filter(|end| *end <= self.reader.buffer.len())
+        {
+            self.reader.pos = end;
+        }
+        result
+    }
+
     fn new(buffer: &'a [u8], encoding_version: V, endianness: E) -> Self {
         Self {
             reader: Reader { buffer, pos: 0 },
